@@ -1,0 +1,18 @@
+//go:build verif
+
+// Contracts for govc (see /verif/DESIGN.md). Comment-only; compiled only with -tags verif.
+
+package runescape
+
+//@ property C10 C07
+
+//@ global len(unescaper.escapableCharMap) == 256
+
+// refinement of the base.LogRewriter contract with rwmax = len(value)
+//@ func (rw *unescapeRewriter) MaxFieldLength(value string, record *base.LogRecord) int
+//@   ensures result == len(value)
+//@ func (rw *unescapeRewriter) WriteFieldBody(value string, record *base.LogRecord, buffer []byte) int
+//@   requires record != nil && len(buffer) >= len(value)
+//@   modifies buffer[: len(value)], record.Unescaped
+//@   ensures  0 <= result && result <= len(value) && record.Unescaped
+//@   ensures[already-unescaped-is-copied] old(record.Unescaped) ==> result == len(value) && forall i int :: 0 <= i && i < len(value) ==> buffer[i] == value[i]
